@@ -169,6 +169,9 @@ def per_entry_loop(body, t):
     for b in loop:
         for s in body.blocks[b]["st"]:
             if s["s"] == "assign":
+                pr = pl_proj(s["p"])
+                if pr and pr[0] == "*":
+                    continue     # write through a pointer: the pointer local itself is checked below
                 defs_in_loop.setdefault(pl_local(s["p"]), 0)
                 defs_in_loop[pl_local(s["p"])] += 1
     alldefs = body.defs()
@@ -181,6 +184,12 @@ def per_entry_loop(body, t):
                 continue
             l = pl_local(s["p"])
             if body.local_ty(l) == "()":
+                continue
+            pr = pl_proj(s["p"])
+            if pr and pr[0] == "*":
+                # the pointer written through must itself be a loop-local value (derived from the visited entry)
+                if len(alldefs.get(l, [])) != defs_in_loop.get(l, 0) or l <= body.argc:
+                    return False
                 continue
             # every definition of the written local must sit inside the loop (loop-local temporary or the element ref)
             if len(alldefs.get(l, [])) != defs_in_loop.get(l, 0) + (1 if l == elem_src else 0) and l != elem_src:
